@@ -179,7 +179,7 @@ def excluded_by(items, top=True) -> str | None:
                 return "R1"  # break-loop must be followed by an event
             if _ends_in_fork(body) and _fork_branch_ends_in_block(body[-1]):
                 return "R2"
-            if last and _ends_in_fork(body) and body[-1][0] == "or":
+            if last and _ends_in_fork(body) and body[-1][0] in ("or", "and"):
                 return "R3"
             r = excluded_by(body, False)
             if r:
